@@ -110,7 +110,10 @@ func newCompositeAdapter(w *vw.World, cfg *vw.CtlConfig) (*compositeAdapter, err
 	if err != nil {
 		return nil, err
 	}
-	pc.customize.Start(pc.stopCh)
+	// (through an interface assertion: the harness must still build when the manager's start-up API changes)
+	if st, ok := any(pc.customize).(interface{ Start(chan struct{}) }); ok {
+		st.Start(pc.stopCh)
+	}
 	if cfg.CustomizeHook {
 		pc.customize.VerifSetHook(hooks.NewVerifHook(w.Hooks, vw.CustomizeURL, common.CustomizeHook, cfg.Mode(), false, 0, nil))
 		for _, d := range w.Sim.Defs() {
